@@ -79,6 +79,8 @@ func (s RState) applyRecord(rec TapeRec, cfg Cfg) {
 	if carriesContent {
 		name = stripCodecSuffix(name, cfg)
 	}
+	// equivalent spellings ("a/b", "./a/b", "/a/b") name the same entry
+	name = normRowName(name)
 	mk := func(contentOff int64) *RNode {
 		return &RNode{Name: name, Typeflag: h.Typeflag, Size: size, Mode: h.Mode, Uid: h.Uid, Gid: h.Gid, Mtime: h.ModTime.UnixNano(), ContentOff: contentOff, LastOff: rec.Off}
 	}
@@ -90,7 +92,7 @@ func (s RState) applyRecord(rec TapeRec, cfg Cfg) {
 	case "UPDATE":
 		old := name
 		if rn, ok := h.PAXRecords["STFS.ReplacesName"]; ok {
-			old = rn
+			old = normRowName(rn)
 		}
 		cur, exists := s[old]
 		if replaces {
